@@ -10,15 +10,19 @@
 (*   mode "ext"    bytes = Wire(tx) followed by the unspents extension        *)
 EXTENDS TxParse, TxGrid, Json
 
-CONSTANT Emit            \* print the cases (replay) or only check the lemmas
+CONSTANTS Emit,          \* print the cases (replay) or only check the lemmas
+          Bug            \* "none"; or the name of a deliberately wrong serialiser the lemmas must reject
 
 Cases == {[mode |-> "wire", tx |-> t, us |-> <<>>] : t \in AllTx}
-         \cup {[mode |-> "noseg", tx |-> t, us |-> <<>>] : t \in FamB2 \cup FamC \cup FamA2}
+         \cup {[mode |-> "noseg", tx |-> t, us |-> <<>>] : t \in FamB2 \cup {x \in FamC : Len(x.outs) <= 1} \cup FamA2}
          \cup {[mode |-> "ext", tx |-> t, us |-> u] : t \in {x \in ExtBase : Len(x.ins) = 1}, u \in UnspentLists(1)}
          \cup {[mode |-> "ext", tx |-> t, us |-> u] : t \in {x \in ExtBase : Len(x.ins) = 2}, u \in UnspentLists(2)}
          \cup {[mode |-> "ext", tx |-> t, us |-> u] : t \in {x \in ExtBase : Len(x.ins) = 3}, u \in UnspentLists(3)}
 
-InputOf(c) == CASE c.mode = "wire"  -> Wire(c.tx)
+\* teeth of the lemmas: a serialiser that forgets empty witness items (the classic slip) must break RoundTrip
+BuggyWire(tx) == Wire([tx EXCEPT !.ins = [i \in 1..Len(tx.ins) |->
+                          [tx.ins[i] EXCEPT !.wit = SelectSeq(tx.ins[i].wit, LAMBDA w : w # <<>>)]]])
+InputOf(c) == CASE c.mode = "wire"  -> IF Bug = "drop-empty-witness-items" THEN BuggyWire(c.tx) ELSE Wire(c.tx)
                 [] c.mode = "noseg" -> Stripped(c.tx)
                 [] c.mode = "ext"   -> WireExt(c.tx, c.us)
 ExpectedTx(c) == IF c.mode = "noseg" THEN StripWitness(c.tx) ELSE c.tx
